@@ -34,7 +34,7 @@ pub fn def() -> PropDef {
     PropDef {
         id: "C09",
         level: "exploration",
-        rule: "store: generated documents (all value types, nested JSON to depth 8, multi-valued fields, empty and huge documents, unicode) written with StoreWriter under generated compressor/block size/thread settings; stores composed recursively by stack() and by raw-byte copies with deletions; read back by get (generated access orders with repeats, 6 cache sizes), iter(None), iter(alive). index: the same documents through IndexWriter (optionally sorted index), commits, deletes, merges of generated segment subsets, codec/block-size changes between merges; read back by Searcher::doc / StoreReader::get / iter after every step, identity taken from a non-stored fast field. Non-trivial = the store read has > 8 blocks, or a document larger than the block size, or content that went through a stacking step; distinct by case fingerprint.",
+        rule: "store: generated documents (all value types, nested JSON to depth 8, top-level arrays incl. arrays of payload-free elements as first value, multi-valued fields, > 128 interleaved values, empty and huge documents, unicode; fetched documents are compared value by value and again through to_named_doc, the grouping behind to_json) written with StoreWriter under generated compressor/block size/thread settings; stores composed recursively by stack() and by raw-byte copies with deletions; read back by get (generated access orders with repeats, 6 cache sizes), iter(None), iter(alive). index: the same documents through IndexWriter (optionally sorted index), commits, deletes, merges of generated segment subsets, codec/block-size changes between merges; read back by Searcher::doc / StoreReader::get / iter after every step, identity taken from a non-stored fast field. Non-trivial = the store read has > 8 blocks, or a document larger than the block size, or content that went through a stacking step; distinct by case fingerprint.",
         assumptions: vec![
             "a pre-tokenised text added at the top level of a document is stored as its text (tokens are indexing input); nested inside a stored JSON value it comes back with its tokens",
             "f64 values are compared by bit pattern except that any NaN equals any NaN; objects are compared as maps (keys distinct, entry order ignored); values of different fields are compared per field (order inside a field preserved, order across fields ignored)",
@@ -465,6 +465,8 @@ impl Sub for Store {
                 } else {
                     let got: TantivyDocument = reader.get(d as u32).map_err(|e| Failure::new("get_error", format!("get({d}) of {n}, access #{k}, cache {cache}: {e:?}")))?;
                     compare("get", &group_doc(&got), &built.docs[d], &|| format!("get({d}) of {n}, access #{k}, cache {cache}"))?;
+                    // the rendering used by to_json groups the values per field and must keep their order
+                    compare("named_doc", &group_named(&got, &schema), &built.docs[d], &|| format!("to_named_doc of get({d}) of {n}"))?;
                 }
             }
             cx.evals(c.reads.order.len() as u64);
@@ -668,6 +670,7 @@ fn verify(index: &Index, model: &Model, reads: &Reads, step: usize, cx: &Ctx) ->
     for (id, addr) in &live {
         let got: TantivyDocument = searcher.doc(*addr).map_err(|e| Failure::new("searcher_doc_error", format!("step {step}: Searcher::doc({addr:?}) id {id} (sweep), cache {cache}: {e:?}")))?;
         compare("searcher_doc", &group_doc(&got), exp(*id), &|| format!("step {step}: Searcher::doc({addr:?}) id {id} (sweep), cache {cache}"))?;
+        compare("named_doc", &group_named(&got, schema()), exp(*id), &|| format!("step {step}: to_named_doc of Searcher::doc({addr:?}) id {id}"))?;
     }
     cx.evals(live.len() as u64);
     // (3) per segment: iter yields the live documents in doc-id order; get on a fresh reader
